@@ -118,8 +118,20 @@ def stepLine (env : Env) (w : World) (line : String) : World × String :=
     | none => (w, "bad-op")
     | some (none, s) => (w, s)
     | some (some op, _) =>
-      let (w', o) := step env w op
-      (w', outStr o)
+      -- `NeonHash` implements neither `core::hash::Hasher` nor `std::io::Write` (src/aarch64.rs has
+      -- no impl_write!/impl_hasher!): the runner reports `unsupported` for trait calls on it
+      let tok := (line.trimAscii.toString.splitOn " ").headD ""
+      let viaTrait := tok == "hwrite" || tok == "iowrite" || tok == "writeall" || tok == "iocopy" || tok == "finish" || tok == "flush"
+      let hnd : Option Nat := match op with
+        | .append h _ | .ioWrite h _ | .finish h | .flush h => some h
+        | _ => none
+      match viaTrait, hnd.bind (World.get w) with
+      | true, some x => if !x.auto && x.h.backend == .neon then (w, "unsupported") else
+          let (w', o) := step env w op
+          (w', outStr o)
+      | _, _ =>
+        let (w', o) := step env w op
+        (w', outStr o)
 
 partial def loop (env : Env) (h : IO.FS.Stream) (out : IO.FS.Stream) (w : World) : IO Unit := do
   let line ← h.getLine
